@@ -610,7 +610,7 @@ def trace_inclusion(ctx, exe_s, env):
 
 def replay(ctx, path):
     import replaylib
-    r = replaylib.load("C08", path)
+    r = replaylib.load(ctx, path)
     if "op" not in r:
         return replaylib.obligations("C08", run, r, path)
     variant = r.get("variant", "asan")
